@@ -50,16 +50,16 @@ func scenarioGroups(thorough bool) []*group {
 
 	// ---- two subscribers, WebSocket
 	// equal option tuples (A, A2): one shared connection. A's stream is open ended, B's completes.
-	add(mkGroup(scenario{Name: "W01-shared", Subs: []subSpec{sub("A", "A", nn...).stays(), sub("B", "A2", nnc...)}}, 89, 0, 1))
-	add(mkGroup(scenario{Name: "W02-shared-idle", Idle: idleTimeout, Ticks: tickIdle, Subs: []subSpec{sub("A", "A", nn...).stays(), sub("B", "A2", nnc...)}}, 299, 0, 1))
+	add(mkGroup(scenario{Name: "W01-shared", Subs: []subSpec{sub("A", "A", nn...).stays(), sub("B", "A2", nnc...)}}, 90, 0, 1))
+	add(mkGroup(scenario{Name: "W02-shared-idle", Idle: idleTimeout, Ticks: tickIdle, Subs: []subSpec{sub("A", "A", nn...).stays(), sub("B", "A2", nnc...)}}, 300, 0, 1))
 	// B arrives once A's subscription is established (connection reuse from the pool)
 	// (and A cancels only after its own subscription is established)
 	add(mkGroup(scenario{Name: "W03-reuse", Subs: []subSpec{sub("A", "A", nn...).stays().late(), sub("B", "A2", nnc...).after("A")}}, 71, 0))
-	add(mkGroup(scenario{Name: "W04-reuse-idle", Idle: idleTimeout, Ticks: tickIdle, Subs: []subSpec{sub("A", "A", nn...).stays().late(), sub("B", "A2", nnc...).after("A")}}, 227, 0))
+	add(mkGroup(scenario{Name: "W04-reuse-idle", Idle: idleTimeout, Ticks: tickIdle, Subs: []subSpec{sub("A", "A", nn...).stays().late(), sub("B", "A2", nnc...).after("A")}}, 227, 0).big())
 	// the third tuple differs in exactly one component of the connection key
-	add(mkGroup(scenario{Name: "W05-other-header", Subs: []subSpec{sub("A", "A", n...).stays(), sub("B", "Bh", nc...)}}, 140, 0))
-	add(mkGroup(scenario{Name: "W06-other-init-payload", Subs: []subSpec{sub("A", "A", n...).stays(), sub("B", "Bi", nc...)}}, 140, 0))
-	add(mkGroup(scenario{Name: "W07-other-subprotocol", Subs: []subSpec{sub("A", "A", n...).stays(), sub("B", "Bp", nc...)}}, 140, 0))
+	add(mkGroup(scenario{Name: "W05-other-header", Subs: []subSpec{sub("A", "A", n...).stays(), sub("B", "Bh", nc...)}}, 113, 0).big())
+	add(mkGroup(scenario{Name: "W06-other-init-payload", Subs: []subSpec{sub("A", "A", n...).stays(), sub("B", "Bi", nc...)}}, 113, 0).big())
+	add(mkGroup(scenario{Name: "W07-other-subprotocol", Subs: []subSpec{sub("A", "A", n...).stays(), sub("B", "Bp", nc...)}}, 113, 0).big())
 	// complete / error for one id ends only that one; frames after the terminal frame are dropped
 	add(mkGroup(scenario{Name: "W08-error-ends-only-one", Subs: []subSpec{sub("A", "A", ne...), sub("B", "A2", nnc...)}}, 15))
 	add(mkGroup(scenario{Name: "W09-complete-then-late-frame", Subs: []subSpec{sub("A", "A", ncn...), sub("B", "A2", nnc...)}}, 28))
@@ -70,21 +70,21 @@ func scenarioGroups(thorough bool) []*group {
 	add(mkGroup(scenario{Name: "W12-upgrade-refused", Up: upSpec{Refuse: true}, Subs: []subSpec{sub("A", "A", n...), sub("B", "A2", nc...)}}, 1, 0))
 	add(mkGroup(scenario{Name: "W13-connection-dropped", Up: upSpec{Drop: 1}, Subs: []subSpec{sub("A", "A", nnc...), sub("B", "A2", nnc...)}}, 119, 0))
 	add(mkGroup(scenario{Name: "W15-ping-unanswered", Ping: true, Up: upSpec{NoPong: true}, Ticks: tickPing, Subs: []subSpec{sub("A", "A", n...), sub("B", "A2", n...)}}, 176, 0))
-	add(mkGroup(scenario{Name: "W16-reuse-ping-unanswered", Ping: true, Up: upSpec{NoPong: true}, Ticks: tickPing, Subs: []subSpec{sub("A", "A", n...).late(), sub("B", "A2", n...).after("A")}}, 222, 0))
+	add(mkGroup(scenario{Name: "W16-reuse-ping-unanswered", Ping: true, Up: upSpec{NoPong: true}, Ticks: tickPing, Subs: []subSpec{sub("A", "A", n...).late(), sub("B", "A2", n...).after("A")}}, 222, 0).big())
 	// legacy graphql-ws on both
-	add(mkGroup(scenario{Name: "W17-legacy-shared", Subs: []subSpec{sub("A", "L", nn...).stays(), sub("B", "L2", ne...)}}, 52, 0))
+	add(mkGroup(scenario{Name: "W17-legacy-shared", Subs: []subSpec{sub("A", "L", nn...).stays(), sub("B", "L2", ne...)}}, 53, 0))
 
 	// ---- two subscribers, SSE (one request per subscription)
 	add(mkGroup(scenario{Name: "S01-sse", Subs: []subSpec{sub("A", "S", nn...).stays(), sub("B", "S2", nnc...)}}, 110, 0, 1))
-	add(mkGroup(scenario{Name: "S02-sse-error-and-drop", Up: upSpec{Drop: 1}, Subs: []subSpec{sub("A", "S", nnc...), sub("B", "Sg", ne...)}}, 167, 1))
+	add(mkGroup(scenario{Name: "S02-sse-error-and-drop", Up: upSpec{Drop: 1}, Subs: []subSpec{sub("A", "S", nnc...), sub("B", "Sg", ne...)}}, 167, 1).big())
 	add(mkGroup(scenario{Name: "S03-sse-refused", Up: upSpec{Refuse: true}, Subs: []subSpec{sub("A", "S", n...), sub("B", "S2", nc...)}}, 1, 0))
 
 	if thorough {
-		add(mkGroup(scenario{Name: "W14-ping-answered", Ping: true, Ticks: tickPing, Subs: []subSpec{sub("A", "A", n...).stays(), sub("B", "A2", nc...)}}, 405, 0))
-		add(mkGroup(scenario{Name: "W18-other-endpoint", Subs: []subSpec{sub("A", "A", n...).stays(), sub("B", "Be", nc...)}}, 140, 0))
-		add(mkGroup(scenario{Name: "M01-ws-and-sse", Subs: []subSpec{sub("A", "A", nn...).stays(), sub("B", "S", nnc...)}}, 157, 0, 1))
+		add(mkGroup(scenario{Name: "W14-ping-answered", Ping: true, Ticks: tickPing, Subs: []subSpec{sub("A", "A", n...).stays(), sub("B", "A2", nc...)}}, 406, 0).big())
+		add(mkGroup(scenario{Name: "W18-other-endpoint", Subs: []subSpec{sub("A", "A", n...).stays(), sub("B", "Be", nc...)}}, 113, 0).big())
+		add(mkGroup(scenario{Name: "M01-ws-and-sse", Subs: []subSpec{sub("A", "A", nn...).stays(), sub("B", "S", nnc...)}}, 158, 0, 1).big())
 		// ---- three subscribers
-		add(mkGroup(scenario{Name: "T01-two-shared-one-other", Subs: []subSpec{sub("A", "A", n...).stays(), sub("B", "A2", nc...), sub("C", "Bh", nc...)}}, 925, 0).big())
+		add(mkGroup(scenario{Name: "T01-two-shared-one-other", Subs: []subSpec{sub("A", "A", n...).stays(), sub("B", "A2", nc...), sub("C", "Bh", nc...)}}, 650, 0).big())
 		add(mkGroup(scenario{Name: "T02-three-shared", Subs: []subSpec{sub("A", "A", n...).stays(), sub("B", "A2", nc...), sub("C", "A", nc...)}}, 380, 0).big())
 		add(mkGroup(scenario{Name: "T03-three-shared-reuse", Subs: []subSpec{sub("A", "A", n...).stays().late(), sub("B", "A2", nc...).after("A"), sub("C", "A", nc...).after("A")}}, 456, 0).big())
 	}
